@@ -100,6 +100,8 @@ def check_facts(facts, expectations):
         for c in e.get("absent", []):
             if c in calls:
                 bad.append(f"{e['func']}: unexpected call to {c}")
+        if "exact" in e and sorted(calls) != sorted(e["exact"]):
+            bad.append(f"{e['func']}: expected exactly {sorted(e['exact'])}, got {sorted(calls)}")
         order = e.get("order")
         if order:
             i = 0
